@@ -25,13 +25,16 @@ CHECKS = {
                 text="Every value-returning XRL_EXTERN prototype (table generated from the headers, an unmapped prototype fails the check closed) is driven "
                      "through its full discrete argument space times a structured alphabet of continuous and string arguments, in three calling modes "
                      "(empty slot, no slot, pre-filled slot); the oracle is the error/value contract itself, so no reference values are needed. "
-                     "1.5e8 (quick) calls per run; crashes are contained and bisected to the failing tuple.",
+                     "1.5e8 (quick) calls per run; crashes are contained and bisected to the failing tuple. Writes to stdout or stderr are captured per call (a "
+                     "diagnostic on a standard stream, e.g. the complaint about an error stored over an existing one, is a violation); the parser is also given "
+                     "strings with two independent causes of rejection and decimal subscripts across 1e-25..1e22.",
                 note="Continuous arguments are represented by table ends, edges +-eps, specials and angle grids, not covered; NaN/Inf arguments and "
                      "allocation failure are outside the property; MAY_VANISH functions are exempt from the 'never 0' clause (listed in checks/c03.py)."),
     "C07": dict(level="exploration", engine="ENUM", ref="4/C07",
                 technique="bounded-exhaustive grammar and mutation enumeration of the real parser against an exact-arithmetic reference parser",
                 text="All formulas up to a unit bound over prefix-colliding alphabets (nesting <= 3), all symbols and ordered pairs, all permutations of "
-                     "top-level terms, every single-byte mutation (bytes 1..255) of a valid corpus, parsed by the real library under a real comma-decimal "
+                     "top-level terms, every single-byte mutation (bytes 1..255) of a valid corpus, EVERY string up to length 6 (thorough: 7) over two six-symbol "
+                     "alphabets (112k strings), all ordered pairs of fault fragments, decimal subscripts across 25 magnitudes, parsed by the real library under a real comma-decimal "
                      "locale and compared with an independent recursive-descent parser in exact rationals (three-way classification accept / reject / unspecified).",
                 note="Strings outside the canonical grammar that match none of the rejection classes named in the property are UNSPECIFIED (contract only). "
                      "Formulas beyond the unit bound are represented by long repeated-unit strings only."),
@@ -43,7 +46,8 @@ CHECKS = {
     "C12": dict(level="exploration", engine="ENUM", ref="4/C12",
                 technique="exhaustive evaluation of the real closed-form functions on a complete (E, theta, phi) grid against mutual identities and converged quadrature",
                 text="All seven closed-form functions are evaluated on the complete grid (61/241 energies over 12 decades x 33 theta x 8..17 phi) and every identity "
-                     "named in the property is checked at every grid point; the total is compared with a composite Gauss-Legendre quadrature of the library's "
+                     "named in the property is checked at every grid point, and again at theta0 +- delta next to 0, pi/2, pi and their images (delta 1e-2..1e-10) against "
+                     "cancellation-free closed forms; the total is compared with a composite Gauss-Legendre quadrature of the library's "
                      "own differential form whose convergence is verified in the run.",
                 note="The continuum is represented by the grid, not covered; tolerances 1e-8 (quadrature), 1e-10..1e-12 (algebraic identities)."),
     "C05": dict(level="exploration", engine="ENUM", ref="4/C05",
@@ -60,7 +64,7 @@ CHECKS = {
     "C08": dict(level="exploration", engine="ENUM", ref="4/C08",
                 technique="exhaustive enumeration of Z x shells x lines x 5 variants x edge-bracketing energies against a reference cascade recursion over public primitives",
                 text="With the Kissel table regenerated from data/kissel, every element, K..M5 shell, line macro, variant and unit is evaluated at energies "
-                     "bracketing every edge and spanning the tables and compared with a reference recursion (own photo-ionisation + Coster-Kronig feeding + "
+                     "bracketing every edge (1 +- 1e-6, the edge itself and its two neighbouring doubles) and spanning the tables and compared with a reference recursion (own photo-ionisation + Coster-Kronig feeding + "
                      "radiative / Auger vacancy transfer, Auger membership and double-hole multiplicity parsed from the macro names); the build-time "
                      "transfer constants are thereby re-derived cell by cell. With the table emptied (as shipped) every call must fail.",
                 note="Differential oracle over public primitives (C01/C02/C11 decide those); configuration K depends on the Python port of kissel.pro, "
@@ -69,13 +73,15 @@ CHECKS = {
                 technique="exhaustive enumeration of Z x shells x lines x energies on both sides of every K/L edge against the jump-share formula, three-valued oracle",
                 text="Every element, shell and line macro at energies straddling every K/L edge (1 +- 1e-9..1e-3), between edges and at the photo table ends; the "
                      "result must equal photo cross section x jump share x yield x rate computed from the public ingredients; an error is accepted only where "
-                     "the statement allows one, and a fully defined non-zero product must be returned.",
+                     "the statement allows one, and a fully defined non-zero product must be returned. The line grid is executed a second time with the line varying fastest "
+                     "(consecutive calls share Z and E) and compared bit for bit: the value of a tuple must not depend on the order of the batch.",
                 note="Differential oracle; E exactly on an edge and products that are exactly 0 (jump ratio 1) are don't-care points."),
     "C06": dict(level="exploration", engine="ENUM", ref="4/C06",
                 technique="exhaustive enumeration of a covering formula set + NIST names x energy/angle/density grids against the mixture rule over public elemental functions",
                 text="All weighable single symbols, a covering set of binary/ternary/nested formulas, the NIST names and invalid names are driven through the 21 _CP "
                      "functions and 4 refractive-index entry points on complete energy x angle x density grids; the expected value is the left-to-right sum of "
-                     "mass fraction x elemental function with the composition returned by the public parser / NIST lookup of the same build.",
+                     "mass fraction x elemental function with the composition returned by the public parser / NIST lookup of the same build. Every compound call is "
+                     "made with and without an error slot and must return the same value.",
                 note="Differential oracle (C07, C01, C02, C05 decide compositions and elemental values); refractive index constants derived from header macros, rel. 1e-6."),
     "C13": dict(level="exploration", engine="ENUM", ref="4/C13",
                 technique="exhaustive enumeration of crystals x Miller cube x energies x Debye/angle/flag grids against metric-tensor, Bragg and explicit structure-factor references",
@@ -95,21 +101,24 @@ CHECKS = {
                      "in a fork of a pristine process; every enabled operation of the alphabet is executed from every state in a further fork and compared with a "
                      "dictionary model (result, error, sorted duplicate-free content, recomputed volumes, independent copies, built-in collection intact, no live "
                      "blocks after teardown). The core alphabet (21 ops incl. capacity-crossing start states and colliding crystal files) is explored to closure, so "
-                     "the result holds for histories of any length over it; wider alphabets and the built-in collection at its fixed capacity are depth bounded.",
+                     "the result holds for histories of any length over it; a fourth alphabet with atom-less crystals (live atom buffer) is also closed; wider alphabets and "
+                     "the built-in collection at its fixed capacity are depth bounded.",
                 note="Finite name and file alphabets; closure is relative to them. ReadFile is read as all-or-nothing. UBSan's nonnull-attribute check is disabled (bsearch on an empty array)."),
     "C15": dict(level="exploration", engine="ENUM", ref="4/C15",
                 technique="exhaustive enumeration of every catalogue entry in every addressing mode, plus all 3! release orders of deep copies under leak accounting and ASan",
                 text="All 107 symbols, 180 NIST compounds, 10 radionuclides and 38 crystals are addressed by name, by index (incl. out of range), by every published "
                      "index macro and through the name lists; every entry's well-formedness conditions are evaluated; for every entry three copies are fetched, one "
-                     "is scribbled over, the others and a fresh fetch compared, and all are released in every order in a leak-accounting and an ASan build.",
+                     "is scribbled over, the others and a fresh fetch compared, and all are released in every order in a leak-accounting and an ASan build. The crystal "
+                     "catalogue is read again after the documented explicit insertion of crystals that sort first / in the middle / last.",
                 note="Finite catalogues: the enumeration is complete. Macro names are bound to entry names by their alphanumeric skeleton."),
     "C04": dict(level="model_checking", engine="HIST", ref="4/C04",
                 technique="bounded-exhaustive enumeration of inputs, crystal-file line sequences and allocation histories (all release orders) on the real library under ASan/UBSan and per-call live-block accounting",
-                text="Every exported function over the C03 argument product, hostile user crystals, every crystal-file line sequence up to length 4/6 (plus every byte "
+                text="Every exported function over the C03 argument product, hostile user crystals (incl. one whose atom-array size overflows, so that the allocation "
+                     "failure path of the copy routine is reached by arguments alone, followed by dump-source / copy-again), every crystal-file line sequence up to length 4/6 (plus every byte "
                      "prefix of Crystals.dat) and every operation history up to depth 3/4 over the 40-op allocating API with every release order of the live handles are "
                      "executed twice: in an ASan+UBSan build (any report is a violation) and in a build whose malloc/free seam counts blocks allocated inside the call "
                      "window that survive the release of the result and the error (leaks are attributed to the allocating library frame).",
-                note="Allocation failure is not injected; quick strides each function's product to 150k tuples (thorough: complete). UBSan nonnull-attribute off."),
+                note="Allocation failure is not injected (the library does not claim to survive it: most allocations are unchecked; the property quantifies over arguments and call sequences); quick strides each function's product to 150k tuples (thorough: complete). UBSan nonnull-attribute off."),
     "C16": dict(level="model_checking", engine="HIST", ref="4/C16",
                 technique="explicit-state BFS over call histories of the real library with a whole-state key (digest of the library's writable sections, tables, locale, cwd, live blocks), closed; plus all ordered pairs and core triples",
                 text="A state is the history reaching it, replayed in a fresh process; its key digests the library's writable static storage (sections renamed at "
@@ -120,7 +129,9 @@ CHECKS = {
                      "the reachable set is one state and the search closes: purity for histories of any length over the alphabet. All ordered pairs and all "
                      "triples over a core run in long-lived processes as a defence against state the key cannot see; C and comma-decimal locale. Fresh reference "
                      "processes and history processes fill the stack below each call and fresh heap blocks with different bytes, so a result that depends on "
-                     "uninitialised memory differs by construction.",
+                     "uninitialised memory differs by construction. Order invariance: the C03 argument product of every entry point (strided) is executed as one "
+                     "sequence in natural order, reversed, and once per argument with that argument varying fastest; results are compared tuple by tuple. Every crystal "
+                     "file of up to 5 (thorough 6) lines over an 8-line alphabet is read under the comma locale with locale and cwd compared after every call; the BFS itself runs under the comma locale.",
                 note="Argument values outside the alphabet are not covered; libc-internal state other than locale/cwd/stdio is not in the key."),
     "C19": dict(level="translation_validation", engine="ENUM", ref="4/C19",
                 technique="exhaustive enumeration of one argument stream through the real C library and the real Java implementation (same binary protocol), record-by-record comparison",
